@@ -372,6 +372,15 @@ pub fn verif_min_by_dt<'a>(m: &'a MapPathIdDatum) -> (r: Option<(&'a PathId, &'a
 { unimplemented!() }
 //@endif
 
+/// stand-in for a selection expression that is NOT the expected `iter_mut().min_by(|x, y| x.1.0.dt().cmp(y.1.0.dt()))`:
+/// assumed only what its type gives -- some entry of the map, None iff the map is empty
+#[verifier::external_body]
+pub fn verif_select_some<'a>(m: &'a MapPathIdDatum) -> (r: Option<(&'a PathId, &'a (LogMessage, IsLastLogMessage))>)
+    ensures
+        r is None <==> m@.dom() =~= Set::<PathId>::empty(),
+        r is Some ==> m@.contains_key(*r.unwrap().0) && *r.unwrap().1 == m@[*r.unwrap().0],
+{ unimplemented!() }
+
 #[verifier::exec_allows_no_decreases_clause]
 pub fn sel_statement<'a>(map_pathid_datum: &'a MapPathIdDatum) -> (r: (&'a PathId, &'a LogMessage, IsLastLogMessage))
     ensures
@@ -387,7 +396,7 @@ pub fn sel_statement<'a>(map_pathid_datum: &'a MapPathIdDatum) -> (r: (&'a PathI
         ensures is_sel(map_pathid_datum@, *pathid), *log_message == map_pathid_datum@[*pathid].0, is_last == map_pathid_datum@[*pathid].1,
     {
 //@cut slice path=src/bin/s4.rs fn=processing_loop anchor="(pathid, log_message, is_last) = match " take=stmt label=SELSTMT
-//@replace "map_pathid_datum.iter_mut().min_by(|x,y|{x.1.0.dt().cmp(y.1.0.dt())})" "verif_min_by_dt(map_pathid_datum)" ws=1
+//@replace_chain "map_pathid_datum" when="map_pathid_datum.iter_mut().min_by(|x,y|{x.1.0.dt().cmp(y.1.0.dt())})" then="verif_min_by_dt(map_pathid_datum)" else="verif_select_some(map_pathid_datum)"
 //@end
         break;
     }
